@@ -92,6 +92,8 @@ def okOrCycle : Option Forest → Except Err (Forest × Bool)
 produced. -/
 def rawSetList (cfg : Cfg) (f : Forest) (m : Meta) (its : Items) (key : Int) (ins : Bool) (ve : VE) :
     Except Err (Forest × Bool) :=
+  -- only a pg.List has this method (the callers that do not dispatch on the kind are list methods)
+  if m.kind ≠ .list then .error .assertion else
   let len : Int := its.length
   let index0 := listNormIndex cfg key len ins
   if index0 ≥ len && ve.isMissing && !ins then .ok (f, false) else
@@ -429,6 +431,7 @@ def doRebind (cfg : Cfg) (f : Forest) (notifyOn : Bool) (t : Nat) (m : Meta)
 
 def delItemList (cfg : Cfg) (f : Forest) (notifyOn : Bool) (m : Meta) (its : Items) (idx : Int) (accOverride : Bool) : Res :=
   let len : Int := its.length
+  if m.kind ≠ .list then ⟨f, .skip⟩ else       -- `pop` / `remove` / integer `del` are list methods
   if m.sealed then ⟨f, .err .perm⟩ else
   if !m.accW && !accOverride then ⟨f, .err .perm⟩ else
   if idx < -len || idx ≥ len then ⟨f, .err .index⟩ else
@@ -631,6 +634,7 @@ def step (cfg : Cfg) (f : Forest) (notifyOn : Bool) : Op → Res
   | .dPopItem t =>
     match f.find? t with
     | some (.node m its) =>
+      if m.kind = .list then ⟨f, .skip⟩ else      -- a pg.List has no `popitem`
       if m.sealed then ⟨f, .err .perm⟩ else
       match its.getLast? with
       | none => ⟨f, .err .key⟩
